@@ -412,7 +412,7 @@ func (im *impl) brokerDial(c Cmd) (Reply, error) {
 		}
 		defer cc.Close()
 		h := &grpcHandle{cc: cc, ctx: context.Background(), service: "verif.Brokered"}
-		return h.DoT(Cmd{Op: "tag"}, 20*time.Second)
+		return brokeredExchange(h, c)
 	case im.mux != nil:
 		conn, err := im.mux.Dial(id)
 		if err != nil {
@@ -421,9 +421,25 @@ func (im *impl) brokerDial(c Cmd) (Reply, error) {
 		rc := rpc.NewClient(conn)
 		defer rc.Close()
 		h := &rpcHandle{c: rc}
-		return h.DoT(Cmd{Op: "tag"}, 20*time.Second)
+		return brokeredExchange(h, c)
 	}
 	return Reply{}, errors.New("no broker")
+}
+
+// brokeredExchange: who answers on the brokered connection; with S == "blob" also a 5 MiB response.
+func brokeredExchange(h Handle, c Cmd) (Reply, error) {
+	r, err := h.DoT(Cmd{Op: "tag"}, 20*time.Second)
+	if err != nil || c.S != "blob" {
+		return r, err
+	}
+	big, err := h.DoT(Cmd{Op: "blob", N: 5 << 20}, 60*time.Second)
+	if err != nil {
+		return r, fmt.Errorf("5 MiB response over the brokered connection: %v", err)
+	}
+	if len(big.B) != 5<<20 {
+		return r, fmt.Errorf("5 MiB response over the brokered connection: got %d bytes", len(big.B))
+	}
+	return r, nil
 }
 
 // ---------------------------------------------------------------------------
